@@ -231,22 +231,22 @@ def witnessRun : List Event :=
 
 def runFrom (s : Sys) (es : List Event) : Sys := es.foldl (fun s e => (step s e).1) s
 
-theorem reach_run (s : Sys) (hr : Reach s) : ∀ (es : List Event),
-    (es.foldl (fun (acc : Sys × Bool) e => ((step acc.1 e).1, acc.2 && enabledK acc.1 e)) (s, true)).2 = true →
-    Reach (runFrom s es) := by
+theorem reach_run {p : Abs} (s : Sys) (hr : ReachP p s) : ∀ (es : List Event),
+    (es.foldl (fun (acc : Sys × Bool) e => ((step acc.1 e).1, acc.2 && enabledP p acc.1 e)) (s, true)).2 = true →
+    ReachP p (runFrom s es) := by
   intro es
   induction es generalizing s with
   | nil => intro _; exact hr
   | cons e es ih =>
     intro h
     simp only [List.foldl_cons, Bool.true_and] at h
-    by_cases he : enabledK s e = true
+    by_cases he : enabledP p s e = true
     · rw [he] at h
-      exact ih _ (Reach.step e hr he) h
+      exact ih _ (ReachP.step e hr he) h
     · exfalso
-      have hfalse : enabledK s e = false := by simpa using he
+      have hfalse : enabledP p s e = false := by simpa using he
       rw [hfalse] at h
-      have : ∀ (l : List Event) (t : Sys), (l.foldl (fun (acc : Sys × Bool) e => ((step acc.1 e).1, acc.2 && enabledK acc.1 e)) (t, false)).2 = false := by
+      have : ∀ (l : List Event) (t : Sys), (l.foldl (fun (acc : Sys × Bool) e => ((step acc.1 e).1, acc.2 && enabledP p acc.1 e)) (t, false)).2 = false := by
         intro l
         induction l with
         | nil => intro t; rfl
@@ -255,16 +255,16 @@ theorem reach_run (s : Sys) (hr : Reach s) : ∀ (es : List Event),
       exact absurd h (by simp)
 
 theorem witness_reach : Reach (runFrom { cmp := .gt } witnessRun) :=
-  reach_run _ (Reach.init (by decide)) witnessRun (by decide)
+  reach_run (p := absK) _ (ReachP.init (by decide +kernel)) witnessRun (by decide +kernel)
 
 /-- **no_undeclared_input_fails_on_current** (kernel-checked witness): `kcml 0` in the state reached
     by `witnessRun` raises `NoTransition` (Connector `stopped` × `add_candidate`) out of `dataReceived`. -/
 theorem no_undeclared_input_fails_on_current : ¬ no_undeclared_input_full := by
   intro h
-  have := h _ witness_reach (.kcml 0) (by decide) (by decide)
-  exact absurd this (by decide)
+  have := h _ witness_reach (.kcml 0) (by decide +kernel) (by decide +kernel)
+  exact absurd this (by decide +kernel)
 
-example : (step (runFrom { cmp := .gt } witnessRun) (.kcml 0)).2 = .exn (.ntConnector .stopped .add_candidate) := by decide
+example : (step (runFrom { cmp := .gt } witnessRun) (.kcml 0)).2 = .exn (.ntConnector .stopped .add_candidate) := by decide +kernel
 
 /-! ## the two-sided system: re-convergence -/
 
@@ -282,11 +282,11 @@ theorem reconverge_no_trap (s : Sys) (hr : Reach s) : CanConverge s := Certs.rea
 theorem one_direction_reachable (s : Sys) (hr : Reach s) : s.ra = true ∨ s.rb = true := by
   induction hr with
   | init h =>
-    have hall : ∀ t ∈ inits, (t.ra || t.rb) = true := by decide
+    have hall : ∀ t ∈ inits, (t.ra || t.rb) = true := by decide +kernel
     have := hall _ h
     simpa using this
   | step e _ he ih =>
-    have hmem := Certs.reach_mem _ (Reach.step e ‹_› he)
+    have hmem := Certs.reach_mem _ (ReachP.step e ‹_› he)
     have hall : ∀ t ∈ Certs.R, (t.ra || t.rb) = true := Certs.reach_flags
     have := hall _ hmem
     simpa using this
@@ -298,11 +298,11 @@ def afterLossLeaderDialsOnly : Sys :=
     [.key .A, .key .B, .vers .A, .vers .B, .dilate .A, .dilate .B, .deliver .A, .deliver .B, .deliver .A,
      .connect .A, .hs 0, .kcmf 0, .turn1 .A, .lose .A 0, .turn1 .A, .deliver .B, .deliver .B]
 
-example : Reach afterLossLeaderDialsOnly := reach_run _ (Reach.init (by decide)) _ (by decide)
+example : Reach afterLossLeaderDialsOnly := reach_run (p := absK) _ (ReachP.init (by decide +kernel)) _ (by decide +kernel)
 /-- the follower answered `reconnecting` FIRST, then its new hints: the leader (FLUSHING) will use them -/
 example : afterLossLeaderDialsOnly.a.mgr = .FLUSHING ∧ afterLossLeaderDialsOnly.b.mgr = .CONNECTING ∧
-    afterLossLeaderDialsOnly.ba = [.reconnecting, .hints true] ∧ afterLossLeaderDialsOnly.rb = false := by decide
-example : CanConverge afterLossLeaderDialsOnly := reconverge_no_trap _ (reach_run _ (Reach.init (by decide)) _ (by decide))
+    afterLossLeaderDialsOnly.ba = [.reconnecting, .hints true] ∧ afterLossLeaderDialsOnly.rb = false := by decide +kernel
+example : CanConverge afterLossLeaderDialsOnly := reconverge_no_trap _ (reach_run (p := absK) _ (ReachP.init (by decide +kernel)) _ (by decide +kernel))
 
 /-- non-vacuity: a reachable state right after the loss of the connection in use, noticed by the
     leader first (leader FLUSHING, `reconnect` on its way, follower still CONNECTED on the dead link) -/
@@ -311,13 +311,66 @@ def afterLoss : Sys :=
     [.key .A, .key .B, .vers .A, .vers .B, .dilate .A, .dilate .B, .deliver .A, .deliver .B, .deliver .A,
      .connect .A, .hs 0, .kcmf 0, .turn1 .A, .kcml 0, .turn1 .B, .lose .A 0, .turn1 .A]
 
-example : Reach afterLoss := reach_run _ (Reach.init (by decide)) _ (by decide)
-example : afterLoss.a.mgr = .FLUSHING ∧ afterLoss.b.mgr = .CONNECTED ∧ afterLoss.ab = [.hints true, .reconnect] := by decide
-example : CanConverge afterLoss := reconverge_no_trap _ (reach_run _ (Reach.init (by decide)) _ (by decide))
+example : Reach afterLoss := reach_run (p := absK) _ (ReachP.init (by decide +kernel)) _ (by decide +kernel)
+example : afterLoss.a.mgr = .FLUSHING ∧ afterLoss.b.mgr = .CONNECTED ∧ afterLoss.ab = [.hints true, .reconnect] := by decide +kernel
+example : CanConverge afterLoss := reconverge_no_trap _ (reach_run (p := absK) _ (ReachP.init (by decide +kernel)) _ (by decide +kernel))
 
 /-- non-vacuity of the goal: CONNECTED/CONNECTED on one link is reachable -/
 example : goal (runFrom { cmp := .gt }
     [.key .A, .key .B, .vers .A, .vers .B, .dilate .A, .dilate .B, .deliver .A, .deliver .B, .deliver .A,
-     .connect .A, .hs 0, .kcmf 0, .turn1 .A, .kcml 0, .turn1 .B]) = true := by decide
+     .connect .A, .hs 0, .kcmf 0, .turn1 .A, .kcml 0, .turn1 .B]) = true := by decide +kernel
+
+/-! ## silent loss, the ping timer, records that are re-sent (`absS`: one link at a time)
+
+`ReachP absS` = every state reachable by any interleaving of ALL the events above plus: either direction of
+the link silently stops delivering (neither end is told), the leader's ping interval DelayedCall fires
+(`tick`: `TrafficTimer.interval_elapsed` over the generated table → a Ping on the wire, or
+`_signal_reconnect`), Ping / Pong / Ack travel, and each side's application writes one record with a seqnum
+(queued in `Outbound` until acked; `Outbound.use_connection` sends it again on every new connection, after
+the leader's KCM) — with at most one link existing at a time, in every network, A leading. -/
+
+/-- **silent_loss_safe**: also with silent loss, ping-timer expiry and re-sent records, every enabled step from
+    every reachable state raises nothing but the two classified NoTransitions and keeps the invariant: one
+    selected connection per side, a follower protocol off `unselected` only on a link the leader selected, —
+    in particular no record ever reaches a protocol that is still `unselected` (`got_record` has no row
+    there), i.e. the leader's KCM precedes everything it re-sends. -/
+theorem silent_loss_safe (s : Sys) (hr : ReachP absS s) (e : Event) (he : enabledP absS s e = true) :
+    (isFailure (step s e).2 = true → isStoppedAccept (step s e).2 = true ∨ isStoppedCandidate (step s e).2 = true) ∧
+    inv (step s e).1 = true := by
+  have := Certs.reachS_safe s hr e he
+  unfold safeStep at this
+  simp only [Bool.and_eq_true, Bool.or_eq_true, Bool.not_eq_true'] at this
+  refine ⟨fun hf => ?_, this.2⟩
+  rcases this.1 with (h | h) | h
+  · rw [hf] at h; exact absurd h (by simp)
+  · exact Or.inl h
+  · exact Or.inr h
+
+/-- **reconverge_after_silent_loss**: from every such state there is a cooperative continuation (`coop`: as
+    before, and a ping interval may elapse unanswered only on a connection that no longer delivers) to
+    CONNECTED/CONNECTED on the two open, selected, DELIVERING ends of one link: the leader's timer is what
+    gets the two sides out of a black-holed connection. -/
+theorem reconverge_after_silent_loss (s : Sys) (hr : ReachP absS s) : CanConvergeP absS s :=
+  Certs.reachS_converges s hr
+
+/-- non-vacuity: both sides CONNECTED, the leader has an un-acked record, the link turns into a black hole,
+    two ping intervals elapse, the leader hangs up and its Manager is told -/
+def afterSilentLoss : Sys :=
+  runFrom { cmp := .gt }
+    [.key .A, .key .B, .vers .A, .vers .B, .dilate .A, .dilate .B, .deliver .A, .deliver .B, .deliver .A,
+     .connect .A, .hs 0, .kcmf 0, .turn1 .A, .kcml 0, .turn1 .B, .write .A, .silence .A 0, .silence .B 0,
+     .tick .A, .tick .A, .lose .A 0, .turn1 .A]
+
+example : ReachP absS afterSilentLoss := reach_run _ (ReachP.init (by decide +kernel)) _ (by decide +kernel)
+example : afterSilentLoss.a.mgr = .FLUSHING ∧ afterSilentLoss.a.oq = [0] ∧ afterSilentLoss.a.timer = false ∧
+    afterSilentLoss.b.mgr = .CONNECTED ∧ afterSilentLoss.ab = [.hints true, .reconnect] := by decide +kernel
+example : CanConvergeP absS afterSilentLoss :=
+  reconverge_after_silent_loss _ (reach_run _ (ReachP.init (by decide +kernel)) _ (by decide +kernel))
+
+/-- the record written before the first connection is re-sent AFTER the leader's KCM -/
+example : ((runFrom { cmp := .gt }
+    [.key .A, .key .B, .vers .A, .vers .B, .dilate .A, .dilate .B, .deliver .A, .deliver .B, .deliver .A,
+     .connect .A, .write .A, .hs 0, .kcmf 0, .turn1 .A]).link? 0).map (fun k => (k.kl, k.qa)) = some (true, [.open_ 0]) := by
+  decide +kernel
 
 end WV.Props.C11
